@@ -167,6 +167,21 @@ func (tt *TrueTypeFont) parseEncoding(fontDict core.Dict, resolver func(core.Ind
 		} else {
 			tt.Encoding = "WinAnsiEncoding"
 		}
+
+		// Apply differences. A Differences entry that cannot be read leaves
+		// the font with its base encoding, as before.
+		if diffsObj := dict.Get("Differences"); diffsObj != nil {
+			if ref, ok := diffsObj.(core.IndirectRef); ok {
+				if obj, err := resolver(ref); err == nil {
+					diffsObj = obj
+				}
+			}
+			if diffs, ok := diffsObj.(core.Array); ok {
+				if differences, err := parseEncodingDifferences(diffs); err == nil {
+					tt.Differences = differences
+				}
+			}
+		}
 		return nil
 	}
 
